@@ -24,7 +24,13 @@ def atomField (name : String) (xs : List Sexp) : Option String :=
   | some [.atom s] => some s
   | _ => none
 
+def toNumExp : List Sexp → Option NumExp
+  | [.atom sign, .atom cls, .str mag] =>
+    mag.toNat?.map (fun m => { neg := sign == "neg", isInt := cls == "int", mag := m })
+  | _ => none
+
 def toPVal : Sexp → Option PVal
+  | .list (.atom "n" :: rest) => (toNumExp rest).map .n
   | .list [.atom "s", .str v] => some (.s v.toList)
   | .list (.atom "l" :: vs) => (vs.mapM (fun (x : Sexp) => match x with | Sexp.str v => some v.toList | _ => none)).map PVal.l
   | .list [.atom "o", .str d] => some (.o d)
@@ -66,8 +72,11 @@ def toCase (xs : List Sexp) : Option Case := do
     | some [.list [.atom "same"]] => Res.skip
     | some r => (toRes r).getD .skip
     | none => .skip
+  let nexp := (field "nexp" xs).getD []
+  let numH := (field "h" nexp).bind toNumExp
+  let numB := (field "b" nexp).bind toNumExp
   pure { site, tmpl, kind, hraw, braw, hval, bval, xf, h, b, fc, fcs := optRes "fcs", cy := strField "cy" xs, cys := strField "cys" xs,
-         fmtstrip, math := optRes "math", matb := optRes "matb" }
+         fmtstrip, math := optRes "math", matb := optRes "matb", numH, numB }
 
 def stepShape (_ : Unit) (ts : List String) : Unit × String :=
   match ts with
@@ -104,6 +113,7 @@ def stepQ (_ : Unit) (ts : List String) : Unit × String :=
   match ts with
   | [line] =>
     match Sexp.parseLine line with
+    | some [.atom "n", .atom text] => ((), s!"f64={nearestF64Bits (decValue text.toList)}")
     | some [.atom "q", .str str] =>
       let s := str.toList
       let rt := if lexFast (pgQuote s) == [Tok.str s] then 1 else 0
